@@ -9,6 +9,7 @@ import (
 
 	sdk "github.com/pokt-network/pocket-core/types"
 	appsTypes "github.com/pokt-network/pocket-core/x/apps/types"
+	pocketTypes "github.com/pokt-network/pocket-core/x/pocketcore/types"
 	abci "github.com/tendermint/tendermint/abci/types"
 
 	"verif/internal/ev"
@@ -49,6 +50,14 @@ func init() {
 	chainProbes["q_supply"] = q("/custom/pos/total_supply", nil)
 	chainProbes["q_params"] = q("/custom/pocketcore/parameters", nil)
 	chainProbes["q_dao"] = q("/custom/gov/dao", nil)
+	// the dispatch QUERY (ABCI query route of the pocketcore module): answering it fills the node's session cache
+	chainProbes["q_dispatch"] = q("/custom/pocketcore/dispatch", func() []byte {
+		bz, err := pocketTypes.ModuleCdc.MarshalJSON(pocketTypes.QueryDispatchParams{SessionHeader: pocketTypes.SessionHeader{ApplicationPubKey: rawPub("P1"), Chain: "0001"}})
+		if err != nil {
+			panic(err)
+		}
+		return bz
+	})
 	chainProbes["q_store"] = func(r *replica, p Probe) string {
 		rel, _ := strconv.ParseInt(p.Args["height"], 10, 64)
 		h := r.height + rel
@@ -311,7 +320,7 @@ func c11Probes() []Probe {
 func init() {
 	register(&Check{ID: "C11", QuickBud: 110 * time.Second, ThorBud: 30 * time.Minute,
 		Run: func(c *ev.Ctx) {
-			c.Rule = "differential explicit-state search on the real PocketCoreApp: every base history of D blocks over the menu {send, node stake, app stake, param change, empty} x every block position x every phase (before BeginBlock / between DeliverTx and EndBlock / after Commit) x every off-chain call (CheckTx of valid/invalid/state-changing txs, /app/simulate of valid, bad-signature, unsigned and state-changing txs, store queries with and without proof, custom queries at the latest and older heights); the replica that made the call must report exactly the same per-transaction results, validator updates and app hash for every block as the silent replica. Non-trivial = distinct (history, insertion)"
+			c.Rule = "differential explicit-state search on the real PocketCoreApp: every base history of D blocks over the menu {send, node stake, app stake, param change, empty} x every block position x every phase (before BeginBlock / between DeliverTx and EndBlock / after Commit) x every off-chain call (CheckTx of valid/invalid/state-changing txs, /app/simulate of valid, bad-signature, unsigned and state-changing txs, store queries with and without proof, custom queries at the latest and older heights, the dispatch query inserted into jail/edit/claim histories); the replica that made the call must report exactly the same per-transaction results, validator updates and app hash for every block as the silent replica. Non-trivial = distinct (history, insertion)"
 			c.Assume("off-chain calls may change node-local non-consensus data; only block results, validator updates and app hashes are compared")
 			menu := []BlockSpec{blk(tx("send", "A1", "to", "A2", "amount", "7")), blk(tx("node_stake", "N3", "value", "1000000", "chains", "0001")), blk(tx("app_stake", "P2", "value", "1000000")), blk(tx("gov_param", "G", "key", "pos/MaxValidators", "value", `"1"`)), {}}
 			cfg := &chainDiffCfg{Name: "readonly", Env: defaultEnv(), Menu: menu, Depth: 2, Probes: c11Probes(), Phases: []string{"pre", "mid", "post"}, MaxIns: 1}
@@ -333,6 +342,16 @@ func init() {
 				{Kind: "checktx", Tx: &TxSpec{Kind: "app_unstake", Signer: "P1"}}, {Kind: "simulate", Tx: &TxSpec{Kind: "app_unstake", Signer: "P1"}}}
 			icfg := &chainDiffCfg{Name: "readonly-inblock", Env: defaultEnv(), Menu: imenu, Depth: 2, Probes: iprobes, Phases: []string{"tx0"}, MaxIns: 1}
 			chainDiffExplore(c, icfg)
+			// the dispatch query fills the session cache that claim validation reads: histories in which a servicer is
+			// jailed or edits its stake after the query and then claims (two seats, and one seat for two nodes)
+			senv := claimsEnv()
+			smenu := []BlockSpec{{}, {Absent: []string{"N1"}}, blk(tx("claim", "N1", "session", "cur-1")), blk(tx("claim", "N2", "session", "cur-1")),
+				blk(tx("node_stake", "N2", "node", "N2", "value", "2000000", "output", "N2", "chains", "0002"))}
+			dq := []Probe{{Kind: "q_dispatch", Args: map[string]string{"height": "0"}}}
+			chainDiffExplore(c, &chainDiffCfg{Name: "readonly-dispatch-query", Env: senv, Menu: smenu, Depth: 4, Probes: dq, Phases: []string{"pre", "post"}, MaxIns: 1})
+			senv1 := senv
+			senv1.SessionNodeCount = 1
+			chainDiffExplore(c, &chainDiffCfg{Name: "readonly-dispatch-query-one-seat", Env: senv1, Menu: smenu[:4], Depth: 4, Probes: dq, Phases: []string{"pre", "post"}, MaxIns: 1})
 			getPool().Close()
 		},
 		Replay: diffReplayFn,
@@ -387,7 +406,7 @@ func init() {
 			// validation regenerates on a cold cache must be the one dispatch handed out (and cached) earlier
 			env1 := env
 			env1.SessionNodeCount = 1
-			s1cfg := &chainDiffCfg{Name: "offchain-sessions-one-seat", Env: env1, Menu: smenu[:4], Depth: 4, Probes: sprobes[:1], Phases: []string{"pre", "post"}, MaxIns: 1}
+			s1cfg := &chainDiffCfg{Name: "offchain-sessions-one-seat", Env: env1, Menu: smenu[:4], Depth: 4, Probes: append(append([]Probe{}, sprobes[:1]...), Probe{Kind: "q_dispatch", Args: map[string]string{"height": "0"}}), Phases: []string{"pre", "post"}, MaxIns: 1}
 			chainDiffExplore(c, s1cfg)
 			getPool().Close()
 		},
